@@ -13,6 +13,8 @@ from concurrent.futures import ThreadPoolExecutor
 VERIF = os.path.dirname(os.path.dirname(os.path.abspath(__file__)))
 REPO = os.environ.get("VERIF_REPO", "/repo")
 BUILD = os.path.join(VERIF, ".build")
+import hashlib as _hl
+RUNDIR = os.path.join(BUILD, "run" if REPO == "/repo" else "run_" + _hl.sha1(REPO.encode()).hexdigest()[:8])   # scratch files of a trial on another copy never mix with ours
 COQ = os.path.join(VERIF, "coq")
 HARNESS = os.path.join(VERIF, "harness")
 CARGO_TARGET = os.path.join(BUILD, "cargo")
@@ -140,8 +142,10 @@ def build_harness(release=False):
     import shutil
     hdir, target = HARNESS, CARGO_TARGET
     if REPO != "/repo":
-        hdir = os.path.join(BUILD, "harness_alt")
-        target = os.path.join(BUILD, "cargo_alt")
+        import hashlib
+        tag = hashlib.sha1(REPO.encode()).hexdigest()[:8]      # one build directory per scratch copy: concurrent trials must not share one
+        hdir = os.path.join(BUILD, "harness_alt_" + tag)
+        target = os.path.join(BUILD, "cargo_alt_" + tag)
         os.makedirs(os.path.join(hdir, "src"), exist_ok=True)
         for fn in ("main.rs", "gen.rs"):
             shutil.copy(os.path.join(HARNESS, "src", fn), os.path.join(hdir, "src", fn))
@@ -364,8 +368,8 @@ def parse_obs(line, names):
 
 def run_harness(binary, cases, tag, threads=1, timeout=1800):
     """Run cases through the harness; fills case.obs / case.images."""
-    os.makedirs(os.path.join(BUILD, "run"), exist_ok=True)
-    path = os.path.join(BUILD, "run", "%s.cases" % tag)
+    os.makedirs(RUNDIR, exist_ok=True)
+    path = os.path.join(RUNDIR, "%s.cases" % tag)
     with open(path, "w") as f:
         for c in cases:
             f.write(c.harness_text())
@@ -428,7 +432,7 @@ Eval vm_compute in map (fun k => (display_name k, display_parens k)) all_kinds.
 
 
 def coq_eval(src, tag, timeout=1200):
-    d = os.path.join(BUILD, "run")
+    d = RUNDIR
     os.makedirs(d, exist_ok=True)
     path = os.path.join(d, "q_%s.v" % tag)
     with open(path, "w") as f:
